@@ -786,7 +786,7 @@ class TimeConverter(DateTimeBase):
             ConverterError: If no format was provided or the value
                 could not be converted.
         """
-        return self.parse(value, **kwargs).time()
+        return self.parse(value, **kwargs).timetz()
 
 
 class DateConverter(DateTimeBase):
